@@ -1,2 +1,109 @@
-(* placeholder until SearchProps.v is written *)
-From NV Require Import SearchDefs.
+(* Properties_C13.v -- C13: search lands on the first match after / the last match before the cursor,
+   no wrap.  Statements only; every proof is `exact <lemma>`.  Model and specification are the same
+   scan (coq/SearchDefs.v lbuf_search_g / vi_search / run_cmds) over two row matchers: the code's
+   (the matcher applied to the line SUFFIX with NOTBOL: fm_suffix rfind) and the whole-line one
+   (wfind kw s k = leftmost match at or after byte k judged against the whole line s). *)
+From Coq Require Import List NArith ZArith Bool Arith.
+From NV Require Import Bytes UcDefs UcSpec SearchDefs SearchProps.
+Import ListNotations.
+Local Open Scope nat_scope.
+
+(* for every text, cursor, and sequence of / ? n N ^A commands with counts and line offsets: if the
+   matcher is suffix-invariant, the code's scan computes what the whole-line specification says *)
+Theorem C13_spec_equiv : forall rfind wfind rcomp lb cmds st xrow xoff,
+  Forall line_ok lb -> (forall kw, suffix_inv rfind wfind kw) ->
+  run_cmds (fm_suffix rfind) rcomp st lb cmds xrow xoff = run_cmds wfind rcomp st lb cmds xrow xoff.
+Proof. exact spec_equiv. Qed.
+Print Assumptions C13_spec_equiv.
+
+(* the same for one pattern and any count and direction (only that pattern needs to be invariant) *)
+Theorem C13_spec_equiv_count : forall rfind wfind rcomp lb kw fwd cnt r0 o0,
+  Forall line_ok lb -> suffix_inv rfind wfind kw ->
+  search_iter (fm_suffix rfind) rcomp cnt kw lb fwd r0 o0 = search_iter wfind rcomp cnt kw lb fwd r0 o0.
+Proof. exact spec_equiv_one. Qed.
+Print Assumptions C13_spec_equiv_count.
+
+(* the reference matcher (rstr.c fast path + engine subset) is suffix-invariant for every pattern
+   without \< and \> : the left neighbour is consulted by word anchors only *)
+Theorem C13_suffix_inv : forall ic kw, no_word_atoms kw = true -> suffix_inv (ref_rfind ic) (ref_wfind ic) kw.
+Proof. exact ref_suffix_inv. Qed.
+Print Assumptions C13_suffix_inv.
+
+(* with \< the suffix hides the left neighbour: /\<foo from column 0 of "xfoo foo" lands on column 1
+   in the model of the code, on column 5 in the whole-line specification (known finding KF-LCTX) *)
+Theorem C13_word_boundary_refuted :
+  let lb := [[120; 102; 111; 111; 32; 102; 111; 111; 10]%N] in
+  let cmds := [(CSlash [92; 60; 102; 111; 111]%N, 1)] in
+  run_cmds (fm_suffix (ref_rfind true)) ref_rcomp sstate0 lb cmds 0 0 = [(true, (0, 1))] /\
+  run_cmds (ref_wfind true) ref_rcomp sstate0 lb cmds 0 0 = [(true, (0, 5))].
+Proof. vm_compute. split; reflexivity. Qed.
+Print Assumptions C13_word_boundary_refuted.
+
+(* no wrap: a forward search never lands on an earlier row, a backward search never on a later one,
+   and on the cursor row only strictly before the cursor; the found row exists *)
+Theorem C13_no_wrap : forall fm lb fwd r0 o0 r o l, lbuf_search_g fm lb fwd r0 o0 = SFound r o l ->
+  r < length lb /\ (if fwd then r0 <= r else r <= r0 /\ (r = r0 -> o < o0)).
+Proof. exact no_wrap_rows. Qed.
+Print Assumptions C13_no_wrap.
+
+(* ... and forward on the cursor row of a valid UTF-8 line strictly after the cursor character *)
+Theorem C13_forward_after_cursor : forall fm cs o0 off b e o l, Forall scalar cs -> o0 < length cs ->
+  uc_chr (chars cs) (Z.of_nat o0 + 1) = Some off ->
+  fm (chars cs) off = Some (b, e) -> fwd_row fm (chars cs) off = Some (o, l) -> o0 < o.
+Proof. exact fwd_after_cursor. Qed.
+Print Assumptions C13_forward_after_cursor.
+
+(* a count is iteration and never wraps either *)
+Theorem C13_no_wrap_count : forall fmk rcomp cnt kw lb fwd r0 o0 r o l,
+  search_iter fmk rcomp cnt kw lb fwd r0 o0 = SFound r o l -> if fwd then r0 <= r else r <= r0.
+Proof. exact iter_no_wrap. Qed.
+Print Assumptions C13_no_wrap_count.
+
+(* when a search command fails (nothing found, bad line offset, no word under the cursor, no
+   previous pattern) the cursor stays where it was *)
+Theorem C13_fail_in_place : forall fmk rcomp st lb cmd cnt xrow xoff st' pos,
+  search_cmd fmk rcomp st lb cmd cnt xrow xoff = (st', false, pos) -> pos = (xrow, xoff).
+Proof. exact fail_in_place. Qed.
+Print Assumptions C13_fail_in_place.
+
+(* forward, rows: the found row is the first row from the cursor row on whose scan finds a match;
+   the cursor row is scanned from the byte after the cursor character, later rows from 0 *)
+Theorem C13_forward_first_row : forall fm rows i first r o l, fwd_rows fm rows i first = SFound r o l ->
+  i <= r < i + length rows /\
+  fwd_row fm (nth (r - i) rows []) (if r =? i then first else 0) = Some (o, l) /\
+  (i < r -> fwd_row fm (nth 0 rows []) first = None) /\
+  (forall j, i < j < r -> fwd_row fm (nth (j - i) rows []) 0 = None).
+Proof. exact fwd_rows_row. Qed.
+Print Assumptions C13_forward_first_row.
+
+(* forward, within a row, for a consistent whole-line matcher: the result is the LEAST position at or
+   after the scan start at which a match begins; and if the row scan finds nothing, no match begins
+   at any position of the line from the scan start on *)
+Theorem C13_forward_least : forall fm s off o l, consistent fm s -> fwd_row fm s off = Some (o, l) ->
+  exists p, off <= p /\ begins fm s p /\ phantom s p = false /\ o = uc_off s p /\
+            forall q, off <= q < p -> ~ begins fm s q.
+Proof. exact fwd_row_least. Qed.
+Print Assumptions C13_forward_least.
+
+Theorem C13_forward_none : forall fm s off, consistent fm s -> fwd_row fm s off = None ->
+  forall q, off <= q -> begins fm s q -> exists p, p <= q /\ nthb s p = 0%N.
+Proof. exact fwd_row_none. Qed.
+Print Assumptions C13_forward_none.
+
+(* backward, within a row: the enumeration terminates within its fuel and returns the last of the
+   successive matches of the row (occ) that begins before the cursor (lim = Some o0 on the cursor
+   row, None on earlier rows) *)
+Theorem C13_backward_last : forall fm s lim, (forall k b e, fm s k = Some (b, e) -> b <= e) ->
+  bwd_row fm (S (length s)) s 0 lim None = Some (pick lim (occ fm (S (length s)) s 0) None).
+Proof. exact bwd_row_last. Qed.
+Print Assumptions C13_backward_last.
+
+(* non-vacuity: a pattern without word anchors, valid lines, and the model run on them *)
+Example C13_nonvacuous :
+  let lb := [[120; 97; 98; 97; 98; 10]; [97; 98; 10]]%N in
+  no_word_atoms [97; 42; 98]%N = true /\ no_word_atoms [94; 97]%N = true /\
+  ref_run true sstate0 lb [(CSlash [97; 98]%N, 2); (CPrev, 1); (CQuest [98; 36]%N, 1)] 0 0
+    = [(true, (0, 3)); (true, (0, 1)); (false, (0, 1))] /\
+  ref_spec_run true sstate0 lb [(CSlash [97; 98]%N, 2); (CPrev, 1); (CQuest [98; 36]%N, 1)] 0 0
+    = [(true, (0, 3)); (true, (0, 1)); (false, (0, 1))].
+Proof. vm_compute. repeat split; reflexivity. Qed.
